@@ -81,7 +81,7 @@ func updateTimeBoundsForRow(lo *storage.LookupOptions, cls *semantic.GraphClause
 		if !ok || v == nil || v.T == nil {
 			return nil, fmt.Errorf("invalid time anchor value %v for bound %s", v, cls.PUpperBoundAlias)
 		}
-		if lo.UpperAnchor == nil || (lo.UpperAnchor != nil && v.T.After(*lo.UpperAnchor)) {
+		if lo.UpperAnchor == nil || (lo.UpperAnchor != nil && v.T.Before(*lo.UpperAnchor)) {
 			lo.UpperAnchor = v.T
 		}
 	}
